@@ -890,6 +890,17 @@ def _has_quantifier(f):
         stack.extend(x.children())
     return False
 
+class SymKeys(V):
+    """d.keys() of a symbolic dict"""
+    def __init__(self, d): self.d = d
+
+_keys_fns = {}
+def keys_list_fn(kty):
+    key = str(kty.sort())
+    if key not in _keys_fns:
+        _keys_fns[key] = z3.Function('keys_list_' + key.replace(' ', '_'), z3.ArraySort(kty.sort(), BoolS), z3.SeqSort(kty.sort()))
+    return _keys_fns[key]
+
 class _RangeSrc(object):
     """range(hi) as the source of a comprehension"""
     def __init__(self, hi): self.hi = hi
@@ -1629,6 +1640,14 @@ class CallMixin(object):
             if isinstance(a, NTup): a = Tup(list(a.items))
             if isinstance(a, (Tup, PyList)): return [(Tup(list(reversed(a.items))), st)]
             raise Unsupported('reversed(%r)' % (a,))
+        if name in ('tuple', 'list') and d and isinstance(d[0], SymKeys):
+            # list(d.keys()): some listing of exactly the keys (insertion order is not modelled: the contract may only speak of membership)
+            sd = d[0].d
+            lst = keys_list_fn(sd.kty)(sd.has)
+            x = z3.Const('x!keys', sd.kty.sort())
+            st.pc.append(z3.ForAll([x], z3.Contains(lst, z3.Unit(x)) == z3.Select(sd.has, x), patterns=[z3.Contains(lst, z3.Unit(x))]))
+            self.reg.assume('A4: list(d.keys()) lists exactly the keys of d (order not modelled)')
+            return [(SeqV(lst, sd.kty), st)]
         if name in ('tuple', 'list'):
             if d and isinstance(d[0], NTup): d = [Tup(list(d[0].items))] + d[1:]
             if not d: return [(st.new_cell(PyList([])) if name == 'list' else Tup([]), st)]
@@ -1775,6 +1794,8 @@ class CallMixin(object):
                                    patterns=[z3.Select(nh, kq), z3.Select(ng, kq)]))
             st.cells[recv.id] = SymDict(nh, ng, r.kty, r.vty)
             return [(NONE, st)]
+        if isinstance(r, SymDict) and name == 'keys' and not args:
+            return [(SymKeys(r), st)]
         if isinstance(r, SymDict):
             if name == 'get':
                 k = self.key_term(args[0], st)
